@@ -117,7 +117,7 @@ void scen_c02_lib(mt_case * c) {
   mt_lib_start(c, &e, 0);
   myth_steal_func_t prev = 0;
   if (L.use_custom) prev = myth_wsapi_set_stealfunc(my_steal);
-  Z0(myth_mutex_init(&L.m, 0));
+  MT_DIRTY(L.m); Z0(myth_mutex_init(&L.m, 0));
   myth_thread_t th[16];
   for (int t = 0; t < L.K; t++) {
     myth_thread_attr_t at; myth_thread_attr_init(&at); at.stacksize = 0; at.child_first = !L.pf[t];
